@@ -51,7 +51,7 @@ fn main() {
         "untrusted-run" => untrusted::run(&arg(&args, "--bases").expect("--bases"), &arg(&args, "--muts").expect("--muts"), argn(&args, "--from", 0) as usize, &out),
         "dump-bases" => untrusted::dump_bases(&arg(&args, "--bases").expect("--bases"), &out),
         "bits-replay" => bits::replay(&arg(&args, "--edges").expect("--edges"), &out),
-        "e57-run" => prog::run_programs(&arg(&args, "--progs").expect("--progs"), &out),
+        "e57-run" => prog::run_programs(&arg(&args, "--progs").expect("--progs"), arg(&args, "--from").map(|x| x.parse::<usize>().expect("--from")), &out),
         "simple-run" => simple::run(&arg(&args, "--progs").expect("--progs"), &out),
         "page-replay-r" => page::replay_r(&arg(&args, "--edges").expect("--edges"), &out),
         "page-trace-case-r" => page::trace_case_r(&arg(&args, "--case").expect("--case"), &out),
